@@ -23,7 +23,10 @@ TECHNIQUE = 'exhaustive enumeration of write_segment programs (operation sequenc
 LEVEL_TEXT = ('Every program over the call-shape alphabet up to depth 2 (quick) / 3 (thorough), for every channel-kind assignment, '
               'session split, format version and destination, is executed on the real TdmsWriter and read back by the real '
               'TdmsFile; data, dtypes, property values and on-disk property type codes are compared with the reference model. '
-              'The writer state (root written, groups written) reaches its fixpoint within depth 2.')
+              'The writer state (root written, groups written) reaches its fixpoint within depth 2. Every tier also runs depth 3 over '
+              'the sub-alphabet of shapes that repeat / reorder / rename the same channels, programs with 20 000-value blocks, and '
+              'copies through TdmsGroup / TdmsChannel objects. A per-shape vacuity guard makes a call shape the writer never accepts '
+              '(unless built to be refused) a harness error.')
 LEVEL_NOTE = ('Trusted: the reference meaning in mc/writerprog.py and the independent parser for type codes. Programs the writer '
               'rejects, programs giving one channel two dtypes and empty untyped inputs are counted and skipped (outside the '
               'statement). Microsecond exactness of timestamps is judged by C12; here timestamps must agree within 1 us.')
